@@ -37,6 +37,9 @@ type vLine struct {
 	id, born int
 	nul      bool
 	killers  []int
+	// also: further commits that insert the very same line independently (a change that was cherry-picked to several
+	// concurrent branches); the line exists once any of born / also is an ancestor
+	also []int
 }
 
 type vHist struct {
@@ -80,7 +83,7 @@ func (v *vHist) ancs() []map[int]bool {
 
 func (v *vHist) alive(c int, l *vLine) bool {
 	a := v.ancs()[c]
-	if !a[l.born] {
+	if !l.bornIn(a) {
 		return false
 	}
 	for _, k := range l.killers {
@@ -91,6 +94,18 @@ func (v *vHist) alive(c int, l *vLine) bool {
 	return true
 }
 
+func (l *vLine) bornIn(a map[int]bool) bool {
+	if a[l.born] {
+		return true
+	}
+	for _, b := range l.also {
+		if a[b] {
+			return true
+		}
+	}
+	return false
+}
+
 // content returns the blob of path at commit c, whether the path is in the tree and whether it is a text file with at
 // least one line.
 func (v *vHist) content(c int, path string) (data []byte, exists, text bool) {
@@ -98,7 +113,7 @@ func (v *vHist) content(c int, path string) (data []byte, exists, text bool) {
 	a := v.ancs()[c]
 	born, any, nul := false, false, false
 	for _, l := range v.seqs[path] {
-		if a[l.born] {
+		if l.bornIn(a) {
 			born = true
 		}
 		if v.alive(c, l) {
@@ -159,6 +174,9 @@ func (v *vHist) sx() Sx {
 			for _, k := range l.killers {
 				f = append(f, I(k))
 			}
+			if len(l.also) > 0 {
+				f = append(f, T("also", Ints(l.also).List...))
+			}
 			items = append(items, L(f...))
 		}
 		paths = append(paths, L(items...))
@@ -200,6 +218,12 @@ func viewFromSx(s Sx) (*vHist, bool) {
 		for _, l := range p.List[1:] {
 			ln := &vLine{id: l.List[0].Int(), born: l.List[1].Int(), nul: l.List[2].Int() != 0}
 			for _, k := range l.List[3:] {
+				if k.Tag() == "also" {
+					for _, b := range k.Args() {
+						ln.also = append(ln.also, b.Int())
+					}
+					continue
+				}
 				ln.killers = append(ln.killers, k.Int())
 			}
 			v.seqs[name] = append(v.seqs[name], ln)
@@ -521,9 +545,11 @@ func (v *vHist) hasWipe() bool {
 
 // stable: the run without hibernation gives one and the same result on several calls (the planner orders concurrent
 // branches differently from call to call; a history whose result depends on that order belongs to C01 / C02).
-func stable(h *synth.Hist, G, S int) bool {
+func stable(h *synth.Hist, G, S int) bool { return stableN(h, G, S, 4) }
+
+func stableN(h *synth.Hist, G, S, n int) bool {
 	first := ""
-	for i := 0; i < 4; i++ {
+	for i := 0; i < n; i++ {
 		ro := doRun(h, G, S, runCfg{})
 		d := ro.out.kind + ":" + ro.out.digest
 		if i > 0 && d != first {
@@ -789,6 +815,9 @@ func rerunCases(c *Config) {
 func stabilityExperiment(c *Config) {
 	for i := 0; i < 150; i++ {
 		v := genWipe(c.Rng)
+		if os.Getenv("C09_ONLY") == "pickstab" {
+			v = genPicked(c.Rng)
+		}
 		h := mkView(v)
 		res := map[string]int{}
 		for k := 0; k < 12; k++ {
